@@ -33,7 +33,8 @@ pub fn variant(name: &str, fields: Vec<(Option<&str>, Value)>) -> Value {
     json!({"k": "variant", "name": name, "f": fields.into_iter().map(|(n, x)| json!({"n": n.into_iter().collect::<Vec<_>>(), "v": x})).collect::<Vec<_>>()})
 }
 fn len(rng: &mut StdRng, depth: u32) -> usize {
-    if depth > 2 { rng.gen_range(0..2) } else { [0, 1, 2, 3, 5][rng.gen_range(0..5)] }
+    // recursion through fixed-size arrays of containers of Self must die out
+    if depth > 4 { 0 } else if depth > 2 { rng.gen_range(0..2) } else { [0, 1, 2, 3, 5][rng.gen_range(0..5)] }
 }
 
 macro_rules! int_val {
